@@ -1,27 +1,28 @@
 _VALUE = ["value-unsigned", "value-signed-negative", "value-signed-nonnegative", "value-float-nan",
-          "value-float-inf", "value-float-subnormal", "value-float-normal", "wide-argument",
+          "value-float-inf", "value-float-subnormal", "value-float-normal", "wide-argument", "wide-sign-extension",
           "swap-inrange", "swap-wide", "swap-sweep-inrange", "inrange-accept", "inrange-reject",
           "typed-image-u16", "typed-image-u32", "typed-image-u64"]
 _LIGHT = _VALUE + ["sweep-unsigned", "sweep-signed-negative", "sweep-signed-both"]
 
 CHECK = {
     "level": "model_checking",
-    "technique": "stateless bounded-exhaustive enumeration of every bf_* function (macro-generated table of 48 ref/set pairs, 7 swap helpers, 8 range predicates, compared at start-up with the definitions found in the header being compiled) against shift/mask arithmetic on uint64_t; floats compared by bit pattern; the same enumeration is run on three builds of the header (-O2 with the swap builtins, -O2 and -O1 with the portable swap bodies), all under ASan, UBSan and -fsanitize=alignment",
+    "technique": "stateless bounded-exhaustive enumeration of every bf_* function (macro-generated table of 48 ref/set pairs, 7 swap helpers, 8 range predicates, compared at start-up with the definitions found in the header being compiled) against shift/mask arithmetic on uint64_t; floats compared by bit pattern; the same enumeration is run on four builds of the header: -O2 with the swap builtins, -O2 and -O1 with the portable swap bodies (these three under ASan, UBSan and -fsanitize=alignment), and -O2 with the swap builtins without any sanitizer instrumentation (the optimiser then uses type-based alias analysis on the codec's accesses as it does in a release build)",
     "rule": "odometer over (build, function row, value pattern, offset 0..7): complete sweeps of all 2^16 / 2^24 patterns (thorough: all 2^32 of the 32-bit integer and f32 rows, of swap24/swap32 and of inrange_u24/s24) in cases of at most 2^20 patterns; for every row the structured family {every octet lane x every octet value on backgrounds 00/ff/a5, single bits and complements, 2^k+-1 and -(2^k)+-1, width and sign boundaries, the unit test's constants, float classes incl. signalling/quiet NaN payloads} at every offset in an exact-size block and in a canaried block; for every row x element type {uint16_t, uint32_t, uint64_t} the edges, test constants and float classes at every offset inside an object of that declared type which is written and read back through lvalues of that type directly around the codec call (store: whole image compared; load: before and after the image is rewritten); the portable-swap builds repeat everything except the 2^32 row/predicate sweeps and sweep the 24-bit rows at a rotating offset; the quantifier's '10^7 random values' are replaced by this structured family; non-trivial = the pattern's octets are not all equal (octet order observable), sweeps and typed images always, inrange: argument not 0",
     "assumptions": ["little-endian host with 8-bit bytes and IEEE-754 floats: native order is checked as little-endian, the SYSTEM_ENDIANNESS_BIG and 16-bit-byte branches of the header are not compiled",
                     "the header as committed is checked; tools/make-binary-format.scm is not executed",
                     "for 40..64-bit rows only the structured family is enumerated (small-scope over lanes, bits and boundaries), not all patterns",
-                    "arguments that do not fit a partial width: only 'nothing outside width/8 octets is written' and the returned address are demanded; swap helpers on such arguments: only the low width/8 octets of the result",
+                    "arguments of a partial-width setter that are not a value of its width (bits above the width set, not a sign extension): the statement speaks of storing a value of that width, so only 'nothing outside width/8 octets is written' and memory safety are demanded -- a setter may store the low octets or refuse (return anything, write nothing); signed arguments that are the sign extension of a W-bit value are values of the width: octets, returned address and neighbours are demanded; swap helpers on arguments wider than the swap: only the low width/8 octets of the result",
                     "ASan red zones directly behind/in front of exact-size heap blocks observe accesses outside the datum",
                     "'at any alignment' is observed in two ways: the octets and the value at offsets 0..7, and UBSan's alignment check on every access the codec makes (a codec that dereferences a uintNN_t lvalue at an odd address is undefined there even if this host tolerates it)",
-                    "build configurations covered: UFW_USE_BUILTIN_SWAP defined (all three builtins) and undefined (none); clang -O1 and -O2; other compilers and partial builtin availability are not"],
+                    "build configurations covered: UFW_USE_BUILTIN_SWAP defined (all three builtins) and undefined (none); clang -O1 and -O2, with and (at -O2) without sanitizer instrumentation; other compilers (the engine builds with clang only; a gcc build variant would need a `cc` key in checks.d) and partial builtin availability are not",
+                    "in the build without sanitizers accesses outside the datum are observed through the in-band canaries and the typed images only (no red zones)"],
     "harnesses": [{
         "name": "c15_binfmt", "src": "harness/c15_binfmt.c", "shape": "espace", "opt": "-O2",
         "cflags": ["-fsanitize=alignment"],
         "lib": [], "min_outcomes": 17,
         "require_outcomes": {
             "any": _LIGHT,
-            "thorough": ["value-unsigned", "value-signed-negative", "value-float-nan", "wide-argument",
+            "thorough": ["value-unsigned", "value-signed-negative", "value-float-nan", "wide-argument", "wide-sign-extension",
                          "swap-inrange", "swap-wide", "inrange-accept", "inrange-reject",
                          "typed-image-u16", "typed-image-u32", "typed-image-u64",
                          "sweep-unsigned", "sweep-signed-negative", "sweep-signed-both",
@@ -36,6 +37,11 @@ CHECK = {
     }, {
         "name": "c15_binfmt_o1_portable_swap", "src": "harness/c15_binfmt.c", "shape": "espace", "opt": "-O1",
         "cflags": ["-fsanitize=alignment", "-UUFW_USE_BUILTIN_SWAP", "-DC15_LIGHT", "-DC15_O1"],
+        "lib": [], "min_outcomes": 17,
+        "require_outcomes": {"any": _LIGHT, "thorough": _LIGHT + ["swap-sweep-wide"]},
+    }, {
+        "name": "c15_binfmt_o2_plain", "src": "harness/c15_binfmt.c", "shape": "espace", "opt": "-O2",
+        "cflags": ["-fno-sanitize=all", "-DC15_LIGHT", "-DC15_PLAIN"],
         "lib": [], "min_outcomes": 17,
         "require_outcomes": {"any": _LIGHT, "thorough": _LIGHT + ["swap-sweep-wide"]},
     }],
